@@ -36,6 +36,13 @@
 #include "urcu-die.h"
 #include "urcu-wait.h"
 #include "urcu-utils.h"
+#ifdef URCU_VERIF
+#include <urcu/verif.h>
+#else
+#ifndef urcu_verif_point
+#define urcu_verif_point(id, ctx) do { } while (0)
+#endif
+#endif
 
 #define URCU_API_MAP
 /* Do not #define _LGPL_SOURCE to ensure we can emit the wrapper symbols */
@@ -53,7 +60,9 @@
 /*
  * Active attempts to check for reader Q.S. before calling futex().
  */
+#ifndef RCU_QS_ACTIVE_ATTEMPTS
 #define RCU_QS_ACTIVE_ATTEMPTS 100
+#endif
 
 /* If the headers do not support membarrier system call, fall back on RCU_MB */
 #ifdef __NR_membarrier
@@ -191,6 +200,7 @@ static void wait_gp(void)
 	smp_mb_master();
 	/* Temporarily unlock the registry lock. */
 	mutex_unlock(&rcu_registry_lock);
+	urcu_verif_point(URCU_VP_GP_PRE_SLEEP, &rcu_gp);
 	while (uatomic_load(&rcu_gp.futex) == -1) {
 		if (!futex_async(&rcu_gp.futex, FUTEX_WAIT, -1, NULL, NULL, 0)) {
 			/*
@@ -251,6 +261,7 @@ static void wait_for_readers(struct cds_list_head *input_readers,
 			smp_mb_master();
 		}
 
+		urcu_verif_point(URCU_VP_GP_SCAN_AFTER_DEC, input_readers);
 		cds_list_for_each_entry_safe(index, tmp, input_readers, node) {
 			switch (urcu_common_reader_state(&rcu_gp, &index->ctr, group)) {
 			case URCU_READER_ACTIVE_CURRENT:
@@ -264,6 +275,7 @@ static void wait_for_readers(struct cds_list_head *input_readers,
 				cds_list_move(&index->node, qsreaders);
 				break;
 			case URCU_READER_ACTIVE_OLD:
+				urcu_verif_point(URCU_VP_GP_ACTIVE_OLD, index);
 				/*
 				 * Old snapshot. Leaving node in
 				 * input_readers will make us busy-loop
@@ -289,6 +301,7 @@ static void wait_for_readers(struct cds_list_head *input_readers,
 			} else {
 				/* Temporarily unlock the registry lock. */
 				mutex_unlock(&rcu_registry_lock);
+				urcu_verif_point(URCU_VP_GP_REGISTRY_UNLOCKED, input_readers);
 				caa_cpu_relax();
 				/*
 				 * Re-lock the registry lock before the
@@ -356,18 +369,21 @@ void synchronize_rcu(void)
 		 * Not first in queue: will be awakened by another thread.
 		 * Implies a memory barrier after grace period.
 		 */
+		urcu_verif_point(URCU_VP_GP_MERGED, &wait);
 		urcu_adaptative_busy_wait(&wait);
 		return;
 	}
 	/* We won't need to wake ourself up */
 	urcu_wait_set_state(&wait, URCU_WAIT_RUNNING);
 
+	urcu_verif_point(URCU_VP_GP_LEADER_PRE_LOCK, &wait);
 	mutex_lock(&rcu_gp_lock);
 
 	/*
 	 * Move all waiters into our local queue.
 	 */
 	urcu_move_waiters(&waiters, &gp_waiters);
+	urcu_verif_point(URCU_VP_GP_WAITERS_MOVED, &waiters);
 
 	mutex_lock(&rcu_registry_lock);
 
@@ -406,9 +422,11 @@ void synchronize_rcu(void)
 	 */
 	cmm_smp_mb();
 
+	urcu_verif_point(URCU_VP_GP_PRE_FLIP, &rcu_gp);
 	/* Switch parity: 0 -> 1, 1 -> 0 */
 	cmm_annotate_group_mem_release(&release_group, &rcu_gp.ctr);
 	uatomic_store(&rcu_gp.ctr, rcu_gp.ctr ^ URCU_GP_CTR_PHASE);
+	urcu_verif_point(URCU_VP_GP_POST_FLIP, &rcu_gp);
 
 	/*
 	 * Must commit rcu_gp.ctr update to memory before waiting for quiescent
@@ -454,6 +472,7 @@ out:
 	 * and have ensured the memory barriers at the end of the grace
 	 * period have been issued.
 	 */
+	urcu_verif_point(URCU_VP_GP_PRE_WAKE_WAITERS, &waiters);
 	urcu_wake_all_waiters(&waiters);
 }
 
@@ -487,6 +506,7 @@ void rcu_register_thread(void)
 	URCU_TLS(rcu_reader).registered = 1;
 	rcu_init();	/* In case gcc does not support constructor attribute */
 	cds_list_add(&URCU_TLS(rcu_reader).node, &registry);
+	urcu_verif_point(URCU_VP_GP_REGISTER, &URCU_TLS(rcu_reader));
 	mutex_unlock(&rcu_registry_lock);
 }
 
@@ -496,6 +516,7 @@ void rcu_unregister_thread(void)
 	urcu_posix_assert(URCU_TLS(rcu_reader).registered);
 	URCU_TLS(rcu_reader).registered = 0;
 	cds_list_del(&URCU_TLS(rcu_reader).node);
+	urcu_verif_point(URCU_VP_GP_UNREGISTER, &URCU_TLS(rcu_reader));
 	mutex_unlock(&rcu_registry_lock);
 }
 
